@@ -28,6 +28,8 @@ class Mesh:
         # List of all added operations/shapes
         self.depot: List[AdditiveType] = []
         self.deleted: Set[Operation] = set()
+        # the operations the current blocks were made from, in the order of blocks
+        self.assembled_operations: List[Operation] = []
 
         self.vertex_list = VertexList()
         self.edge_list = EdgeList()
@@ -126,6 +128,7 @@ class Mesh:
                 block.cell_zone = operation.cell_zone
 
                 self.block_list.add(block)
+                self.assembled_operations.append(operation)
                 self.patch_list.add(vertices, operation)
                 self.face_list.add(vertices, operation)
 
@@ -143,6 +146,7 @@ class Mesh:
     def clear(self) -> None:
         """Undoes the assemble() method; clears created blocks and other lists
         but leaves added depot items intact"""
+        self.assembled_operations = []
         self.vertex_list.clear()
         self.edge_list.clear()
         self.block_list.clear()
@@ -160,12 +164,10 @@ class Mesh:
         if not self.is_assembled:
             raise RuntimeError("Cannot backport non-assembled mesh")
 
-        # deleted operations have no blocks
-        operations = [operation for operation in self.operations if operation not in self.deleted]
-        blocks = self.blocks
-
-        for i, block in enumerate(blocks):
-            op = operations[i]
+        # blocks belong to the operations they were assembled from
+        # (an operation may have been deleted since; the coming assembly leaves it out)
+        for i, block in enumerate(self.blocks):
+            op = self.assembled_operations[i]
 
             vertices = [vertex.position for vertex in block.vertices]
             op.bottom_face.update(vertices[:4])
